@@ -483,10 +483,9 @@ func c16CertErr(r *Run) {
 func c16Matcher(r *Run) {
 	c16CertErr(r)
 	if fn := r.Fn("(*scanner.Scanner).processMatcherEntry"); fn != nil {
-		fc := asInstrs(CallsTo(fn, "dyn(p3)"))
-		fp := asInstrs(CallsTo(fn, "dyn(p4)"))
-		if len(fc) != 1 || len(fp) != 1 {
-			r.Fail("processMatcherEntry:callbacks", r.FnPos(fn), fmt.Sprintf("%d certificate / %d precertificate callback sites", len(fc), len(fp)))
+		fc, fp, unk := c16CallbackSites(r, fn)
+		if len(fc) != 1 || len(fp) != 1 || len(unk) != 0 {
+			r.Fail("processMatcherEntry:callbacks", r.FnPos(fn), fmt.Sprintf("%d certificate / %d precertificate callback sites, %d calls of function values of other origin", len(fc), len(fp), len(unk)))
 		} else {
 			atoms := []RuleAtom{
 				{Name: "x509", Pat: "nil?*.X509Cert"},
@@ -518,9 +517,8 @@ func c16Matcher(r *Run) {
 		}
 	}
 	if fn := r.Fn("(*scanner.Scanner).processMatcherLeafEntry"); fn != nil {
-		fc := asInstrs(CallsTo(fn, "dyn(p3)"))
-		fp := asInstrs(CallsTo(fn, "dyn(p4)"))
-		if len(fc) == 1 && len(fp) == 1 {
+		fc, fp, unk := c16CallbackSites(r, fn)
+		if len(fc) == 1 && len(fp) == 1 && len(unk) == 0 {
 			r.MustGuard(fn, "processMatcherLeafEntry:unmatched-not-delivered", "iface(scanner.LeafMatcher).Matches(*)", "F", append(fc, fp...), "callbacks")
 			cases, err := r.D.ConstTable(fn, "*.Leaf.TimestampedEntry.EntryType", nil)
 			if err != nil {
@@ -547,6 +545,335 @@ func c16Matcher(r *Run) {
 		c := CallsTo(fn, "(*scanner.Scanner).processEntry")
 		r.Check("matcherJob:once-per-entry", len(c) == 1, r.FnPos(fn), "each received entry is processed by one processEntry call")
 	}
+}
+
+// ---- which callback is invoked: provenance of function values across calls -------------------
+//
+// The scan's two callbacks are the arguments foundCert (p2) and foundPrecert (p3) of the
+// exported (*Scanner).ScanLog.  A call of a function value inside the matcher functions is
+// "the certificate callback" iff that value is, on every call chain from ScanLog, ScanLog's
+// p2 — however it travels: as a parameter of its own, captured by a goroutine closure, or as
+// a field of a struct that is built once and passed along (by value or by pointer).
+
+type c16Site struct {
+	fn   *ssa.Function
+	call ssa.CallInstruction
+}
+
+type c16Prov struct {
+	r       *Run
+	root    *ssa.Function
+	callers map[*ssa.Function][]c16Site
+	closure map[*ssa.Function][]*ssa.MakeClosure
+	escaped map[*ssa.Function]bool // used as a function value: may be called from sites that are not static calls
+}
+
+func newC16Prov(r *Run, root *ssa.Function) *c16Prov {
+	p := &c16Prov{r: r, root: root, callers: map[*ssa.Function][]c16Site{}, closure: map[*ssa.Function][]*ssa.MakeClosure{}, escaped: map[*ssa.Function]bool{}}
+	escape := func(f *ssa.Function) {
+		p.escaped[f] = true
+		// a bound-method / thunk wrapper stands for the method it wraps
+		if f.Synthetic != "" {
+			if obj, ok := f.Object().(*types.Func); ok && f.Prog != nil {
+				if t := f.Prog.FuncValue(obj); t != nil {
+					p.escaped[t] = true
+				}
+			}
+		}
+	}
+	for _, fn := range r.P.ModFuncs {
+		eachInstr(fn, func(in ssa.Instruction) {
+			ci, isCall := in.(ssa.CallInstruction)
+			if isCall {
+				if cal := ci.Common().StaticCallee(); cal != nil {
+					p.callers[cal] = append(p.callers[cal], c16Site{fn, ci})
+				}
+			}
+			if mc, ok := in.(*ssa.MakeClosure); ok {
+				if f, ok := mc.Fn.(*ssa.Function); ok {
+					p.closure[f] = append(p.closure[f], mc)
+					if f.Synthetic != "" {
+						escape(f)
+					}
+					// the closure value is only ever called on the spot?
+					if mc.Referrers() != nil {
+						for _, ref := range *mc.Referrers() {
+							if rc, ok := ref.(ssa.CallInstruction); ok && rc.Common().Value == ssa.Value(mc) {
+								continue
+							}
+							if _, ok := ref.(*ssa.DebugRef); ok {
+								continue
+							}
+							escape(f)
+						}
+					}
+				}
+				return
+			}
+			for _, op := range in.Operands(nil) {
+				if op == nil || *op == nil {
+					continue
+				}
+				if f, ok := (*op).(*ssa.Function); ok {
+					if isCall && ci.Common().Value == ssa.Value(f) {
+						continue
+					}
+					escape(f)
+				}
+			}
+		})
+	}
+	return p
+}
+
+// merge: all alternatives must agree on one resolved origin ("" = unresolved).
+func c16Merge(acc *string, first *bool, got string) bool {
+	if got == "" {
+		return false
+	}
+	if *first {
+		*acc, *first = got, false
+		return true
+	}
+	return *acc == got
+}
+
+// value: origin of the (component path of the) value v of fn: "p<k>" of the root function, or "".
+func (p *c16Prov) value(fn *ssa.Function, v ssa.Value, path []int, depth int) string {
+	if depth > 24 {
+		return ""
+	}
+	switch x := v.(type) {
+	case *ssa.Parameter:
+		k := -1
+		for i, q := range fn.Params {
+			if q == x {
+				k = i
+			}
+		}
+		if k < 0 {
+			return ""
+		}
+		if fn == p.root {
+			if len(path) != 0 {
+				return ""
+			}
+			return fmt.Sprintf("p%d", k)
+		}
+		sites := p.callers[fn]
+		if len(sites) == 0 || p.escaped[fn] {
+			return "" // no static caller, or callers that cannot be enumerated
+		}
+		acc, first := "", true
+		for _, s := range sites {
+			args := s.call.Common().Args
+			if k >= len(args) {
+				return ""
+			}
+			var got string
+			if _, isPtr := x.Type().Underlying().(*types.Pointer); isPtr && len(path) > 0 {
+				got = p.addr(s.fn, args[k], path, depth+1)
+			} else {
+				got = p.value(s.fn, args[k], path, depth+1)
+			}
+			if !c16Merge(&acc, &first, got) {
+				return ""
+			}
+		}
+		return acc
+	case *ssa.Field:
+		return p.value(fn, x.X, append([]int{x.Field}, path...), depth+1)
+	case *ssa.UnOp:
+		if x.Op != token.MUL {
+			return ""
+		}
+		return p.addr(fn, x.X, path, depth+1)
+	case *ssa.Phi:
+		acc, first := "", true
+		for _, e := range x.Edges {
+			if !c16Merge(&acc, &first, p.value(fn, e, path, depth+1)) {
+				return ""
+			}
+		}
+		return acc
+	case *ssa.ChangeType:
+		return p.value(fn, x.X, path, depth+1)
+	}
+	return ""
+}
+
+// addr: origin of the (component path of the) value stored at address a of fn.  The cell must
+// be written exactly once on the way (a single assignment of the whole, or of the component).
+func (p *c16Prov) addr(fn *ssa.Function, a ssa.Value, path []int, depth int) string {
+	if depth > 24 {
+		return ""
+	}
+	switch x := a.(type) {
+	case *ssa.FieldAddr:
+		return p.addr(fn, x.X, append([]int{x.Field}, path...), depth+1)
+	case *ssa.FreeVar:
+		k := -1
+		for i, fv := range fn.FreeVars {
+			if fv == x {
+				k = i
+			}
+		}
+		par := fn.Parent()
+		if k < 0 || par == nil || len(p.closure[fn]) == 0 {
+			return ""
+		}
+		acc, first := "", true
+		for _, mc := range p.closure[fn] {
+			if k >= len(mc.Bindings) || mc.Parent() != par {
+				return ""
+			}
+			if !c16Merge(&acc, &first, p.addr(par, mc.Bindings[k], path, depth+1)) {
+				return ""
+			}
+		}
+		return acc
+	case *ssa.Parameter:
+		// a pointer handed in by the callers
+		return p.value(fn, x, path, depth+1)
+	case *ssa.Alloc:
+		var defs []func() string
+		escapes := false
+		var scan func(cf *ssa.Function, base ssa.Value, rest []int, depth2 int)
+		scan = func(cf *ssa.Function, base ssa.Value, rest []int, depth2 int) {
+			refs := base.Referrers()
+			if refs == nil {
+				return
+			}
+			if depth2 > 6 {
+				escapes = true
+				return
+			}
+			for _, ref := range *refs {
+				switch y := ref.(type) {
+				case *ssa.Store:
+					if y.Addr == base {
+						rest, val := rest, y.Val
+						defs = append(defs, func() string { return p.value(cf, val, rest, depth+1) })
+					} else if y.Val == base {
+						escapes = true // the address itself is stored somewhere
+					}
+				case *ssa.FieldAddr:
+					if y.X != base {
+						continue
+					}
+					if len(rest) == 0 {
+						// a component of the wanted value is written separately: not a single definition
+						if !p.readOnlyAddr(y, 0) {
+							escapes = true
+						}
+						continue
+					}
+					if y.Field == rest[0] {
+						scan(cf, y, rest[1:], depth2+1)
+					}
+				case ssa.CallInstruction:
+					// the address is passed to a call that might write through it — unless the
+					// callee is a module function that only reads through that parameter
+					if !p.readOnlyArg(y, base) {
+						escapes = true
+					}
+				case *ssa.MakeClosure:
+					// captured by reference: writes inside the closure count as well
+					f, ok := y.Fn.(*ssa.Function)
+					if !ok {
+						escapes = true
+						continue
+					}
+					for k, b := range y.Bindings {
+						if b == base && k < len(f.FreeVars) {
+							scan(f, f.FreeVars[k], rest, depth2+1)
+						}
+					}
+				case *ssa.UnOp, *ssa.DebugRef:
+				default:
+					escapes = true
+				}
+			}
+		}
+		scan(fn, x, path, 0)
+		if escapes || len(defs) != 1 {
+			return ""
+		}
+		return defs[0]()
+	}
+	return ""
+}
+
+// readOnlyAddr: the address v is only read through (loads, field reads), never written,
+// stored, captured or passed on.
+func (p *c16Prov) readOnlyAddr(v ssa.Value, depth int) bool {
+	if depth > 4 || v.Referrers() == nil {
+		return false
+	}
+	for _, ref := range *v.Referrers() {
+		switch y := ref.(type) {
+		case *ssa.UnOp, *ssa.DebugRef:
+		case *ssa.FieldAddr:
+			if !p.readOnlyAddr(y, depth+1) {
+				return false
+			}
+		default:
+			return false
+		}
+	}
+	return true
+}
+
+// readOnlyArg: the callee of call is a module function that only reads through the pointer
+// parameter(s) bound to arg.
+func (p *c16Prov) readOnlyArg(call ssa.CallInstruction, arg ssa.Value) bool {
+	cal := call.Common().StaticCallee()
+	if cal == nil || len(cal.Blocks) == 0 {
+		return false
+	}
+	for i, a := range call.Common().Args {
+		if a != arg {
+			continue
+		}
+		if i >= len(cal.Params) || !p.readOnlyAddr(cal.Params[i], 0) {
+			return false
+		}
+	}
+	return true
+}
+
+// c16CallbackSites classifies the calls of function values in fn (a matcher function of the
+// Scanner): invocations of ScanLog's certificate callback, of its precertificate callback,
+// and of function values of any other / undetermined origin.
+func c16CallbackSites(r *Run, fn *ssa.Function) (cert, precert, unknown []ssa.Instruction) {
+	root := r.P.Func("(*scanner.Scanner).ScanLog")
+	if root == nil || len(root.Params) != 4 {
+		r.Fail("callbacks:ScanLog", "-", "undecided: (*scanner.Scanner).ScanLog(ctx, foundCert, foundPrecert) not found")
+		return nil, nil, nil
+	}
+	prov := newC16Prov(r, root)
+	eachInstr(fn, func(in ssa.Instruction) {
+		ci, ok := in.(ssa.CallInstruction)
+		if !ok {
+			return
+		}
+		c := ci.Common()
+		if c.IsInvoke() || c.StaticCallee() != nil {
+			return
+		}
+		if _, isB := c.Value.(*ssa.Builtin); isB {
+			return
+		}
+		switch prov.value(fn, c.Value, nil, 0) {
+		case "p2":
+			cert = append(cert, in)
+		case "p3":
+			precert = append(precert, in)
+		default:
+			unknown = append(unknown, in)
+		}
+	})
+	return cert, precert, unknown
 }
 
 func c16Atomics(r *Run) {
